@@ -62,6 +62,12 @@ type Case struct {
 	// and gives up in PutOne on a cancelled context at the moment caller 1 leaves the synchronous path (held at the
 	// gap hooks "do-put" / "do-bg-after"); caller 3 arrives before caller 1 calls background().  Caller 3 must not be
 	// on the connection synchronously when the background workers start.
+	//
+	// Script "stolen-reply" (2 queue entries, 3 callers): A and B occupy the two entries, C waits for A's entry;
+	// the server holds A's reply; A is cancelled and held (gap hook "do-abort" / "multi-abort") between leaving its
+	// select and starting the goroutine that swallows the abandoned reply; then the server answers.  The reader must
+	// hand A's reply over before it releases A's entry: while A is held the entry must stay A's, and C must never
+	// receive A's reply on the entry's channel.
 	Script string `json:"script,omitempty"`
 }
 
@@ -71,6 +77,10 @@ func genCase(r *gen.Rand, i int) any {
 		// replies and the EXEC reply of that flight; a proactive sunsubscribe push arrives in that window
 		return Case{Script: "push-mid-cache", Queue: gen.Pick(r, []string{"ring", "flowbuffer"}), Ring: gen.Pick(r, []int{1, 3, 0}), Mux: -1,
 			Always: r.Bool(), Cache: true, Ops: [][]Op{{{Kind: "cache", Ctx: "bg"}}, {{Kind: "cachejoin", Ctx: "bg"}}}}
+	}
+	if i%20 == 13 {
+		return Case{Script: "stolen-reply", Queue: []string{"ring", "flowbuffer"}[(i/20)%2], Ring: 1, Mux: -1, Always: true,
+			Ops: [][]Op{{{Kind: []string{"echo", "multi"}[(i/40)%2], N: 2, Ctx: "script"}}, {{Kind: "echo", Ctx: "bg"}}, {{Kind: "echo", Ctx: "bg"}}}}
 	}
 	if i%40 == 17 {
 		return Case{Script: "flow-race", Queue: "flowbuffer", Ring: gen.Pick(r, []int{1, 3, 0}), Mux: -1,
@@ -172,6 +182,15 @@ func run(ci any) (res obs.Result) {
 	if c.Script != "" {
 		n = 4
 	}
+	if c.Script == "stolen-reply" {
+		for i := 0; i < 4; i++ {
+			res = runOnce(c)
+			if res.Oracle != "" || res.Nontrivial {
+				return res
+			}
+		}
+		return res
+	}
 	if c.Script == "flow-race" {
 		// PutOne chooses at random between the free position and the done context: repeat until it gave up
 		for i := 0; i < 12; i++ {
@@ -202,11 +221,16 @@ type flowRace struct {
 	echoes          atomic.Int32 // ECHO commands the server has received since the script was armed
 	void            bool         // the interleaving was not reached (PutOne took the free position, or a time-out)
 	violation       string
+	stolen          bool          // script "stolen-reply" (otherwise "flow-race")
+	srvGo           chan struct{} // stolen-reply: the server may answer
+	tracing         bool
+	order           []int
 	relPutO, relBgO sync.Once
+	srvO            sync.Once
 }
 
 func newFlowRace() *flowRace {
-	f := &flowRace{atPut: make(chan struct{}), relPut: make(chan struct{}), atBg: make(chan struct{}), relBg: make(chan struct{})}
+	f := &flowRace{atPut: make(chan struct{}), relPut: make(chan struct{}), atBg: make(chan struct{}), relBg: make(chan struct{}), srvGo: make(chan struct{})}
 	for i := range f.gate {
 		f.gate[i], f.opDone[i] = make(chan struct{}), make(chan struct{})
 	}
@@ -216,19 +240,115 @@ func newFlowRace() *flowRace {
 func (f *flowRace) hook(site string) {
 	switch site {
 	case "do-put":
-		if f.nPut.Add(1) == 1 {
+		if !f.stolen && f.nPut.Add(1) == 1 {
 			close(f.atPut)
 			<-f.relPut
 		}
 	case "do-bg-after":
-		if f.nBg.Add(1) == 1 {
+		if !f.stolen && f.nBg.Add(1) == 1 {
 			close(f.atBg)
+			<-f.relBg
+		}
+	case "do-abort", "multi-abort":
+		if f.stolen && f.nBg.Add(1) == 1 {
+			close(f.atBg) // caller A has left its select and has not started the swallowing goroutine yet
 			<-f.relBg
 		}
 	}
 }
 
+// trace markers of the script "stolen-reply" (kinds above those of the queue hooks)
+const (
+	evHeld = 1000 // caller A is held, the server is told to answer
+	evLet  = 1001 // caller A is let through to its receive
+)
+
+// controlStolen drives the script "stolen-reply".
+func (f *flowRace) controlStolen(cl rueidis.Client) {
+	defer f.releaseAll()
+	waitWaits := func(n int32) bool {
+		for i := 0; i < 2000; i++ {
+			if _, w, _ := rueidis.VerifPipeCounters(cl); w == n {
+				return true
+			}
+			time.Sleep(time.Millisecond)
+		}
+		return false
+	}
+	_, w0, _ := rueidis.VerifPipeCounters(cl)
+	close(f.gate[0])
+	for i := 0; f.echoes.Load() < 1; i++ { // the server has A's command and keeps the reply
+		if i > 2000 {
+			f.void = true
+			return
+		}
+		time.Sleep(time.Millisecond)
+	}
+	close(f.gate[1])
+	if !waitWaits(w0 + 2) { // B is queued in the other entry
+		f.void = true
+		return
+	}
+	time.Sleep(5 * time.Millisecond) // B has its entry
+	close(f.gate[2])
+	if !waitWaits(w0 + 3) { // C has entered Do ...
+		f.void = true
+		return
+	}
+	time.Sleep(5 * time.Millisecond) // ... and waits for A's entry
+	rueidis.VerifTraceStart()
+	f.tracing = true
+	if cf, ok := f.cancel2.Load().(context.CancelFunc); ok {
+		cf()
+	}
+	if !waitFor(f.atBg, 2*time.Second) {
+		f.void = true
+		return
+	}
+	rueidis.VerifEmit(evHeld, 0, 0)
+	f.srvO.Do(func() { close(f.srvGo) }) // the server answers A, then B
+	time.Sleep(40 * time.Millisecond)    // the reader has A's reply and nobody to hand it to
+	rueidis.VerifEmit(evLet, 0, 0)
+	f.relBgO.Do(func() { close(f.relBg) })
+}
+
+// orderOf maps the trace to the events of A's entry: 1 = A let through, 2 = an entry released (ring: evRUnlock 39,
+// flow buffer: evFPutF 57), 3 = a waiting producer occupied an entry (evPutFill 32 / evFTake 50); from the moment A
+// is held on, up to the first few events.
+func orderOf(evs []rueidis.VerifEvent) (order []int, early string) {
+	on := false
+	for _, e := range evs {
+		switch {
+		case e.Kind == evHeld:
+			on = true
+		case !on:
+		case e.Kind == evLet:
+			order = append(order, 1)
+		case e.Kind == 39 || e.Kind == 57:
+			order = append(order, 2)
+		case e.Kind == 32 || e.Kind == 50:
+			order = append(order, 3)
+		}
+		if len(order) >= 6 {
+			break
+		}
+	}
+	for _, o := range order {
+		if o == 1 {
+			break
+		}
+		if o == 2 {
+			return order, "the reader released the queue entry of a caller that had not received its reply yet (the entry's channel is reused by the next occupant)"
+		}
+		if o == 3 {
+			return order, "a producer occupied the queue entry of a caller that had not received its reply yet"
+		}
+	}
+	return order, ""
+}
+
 func (f *flowRace) releaseAll() {
+	f.srvO.Do(func() { close(f.srvGo) })
 	f.relPutO.Do(func() { close(f.relPut) })
 	f.relBgO.Do(func() { close(f.relBg) })
 	for i := range f.gate {
@@ -389,8 +509,9 @@ func runOnce(c Case) (res obs.Result) {
 
 	start := make(chan struct{})
 	var race *flowRace
-	if c.Script == "flow-race" {
+	if c.Script == "flow-race" || c.Script == "stolen-reply" {
 		race = newFlowRace()
+		race.stolen = c.Script == "stolen-reply"
 	}
 	if c.Script == "push-mid-cache" {
 		s.Fault = func(fc *fakeredis.Conn, cseq int, argv []string) fakeredis.Action {
@@ -599,7 +720,17 @@ func runOnce(c Case) (res obs.Result) {
 	if race != nil {
 		s.Fault = func(fc *fakeredis.Conn, cseq int, argv []string) fakeredis.Action {
 			if up(argv[0]) == "ECHO" {
-				if race.echoes.Add(1) == 1 {
+				n := race.echoes.Add(1)
+				if race.stolen {
+					if n == 1 {
+						select { // a server that answers exactly when told (bounded: the script may be abandoned)
+						case <-race.srvGo:
+						case <-time.After(8 * time.Second):
+						}
+					}
+					return fakeredis.Action{}
+				}
+				if n == 1 {
 					return fakeredis.Action{DelayReply: 30 * time.Millisecond}
 				}
 				return fakeredis.Action{DelayReply: 60 * time.Millisecond}
@@ -612,7 +743,11 @@ func runOnce(c Case) (res obs.Result) {
 		go func() {
 			defer pushWg.Done()
 			<-start
-			race.control(cl)
+			if race.stolen {
+				race.controlStolen(cl)
+			} else {
+				race.control(cl)
+			}
 		}()
 	}
 	if c.Script == "early-take" {
@@ -635,6 +770,9 @@ func runOnce(c Case) (res obs.Result) {
 	close(stopPush)
 	if race != nil {
 		race.releaseAll()
+	}
+	if hung && race != nil && race.tracing {
+		rueidis.VerifTraceStop()
 	}
 	if hung {
 		if os.Getenv("VERIF_PIPE_DUMP") != "" {
@@ -714,6 +852,18 @@ func runOnce(c Case) (res obs.Result) {
 			}
 		}
 	}
+	if race != nil && race.tracing {
+		var early string
+		race.order, early = orderOf(rueidis.VerifTraceStop())
+		if early != "" {
+			race.violation = early + fmt.Sprint(" (order of events ", race.order, ": 1 = caller let through to its receive, 2 = entry released, 3 = entry occupied by the waiting producer)")
+		}
+	}
+	if race != nil && race.violation != "" && race.stolen {
+		fails = append([]string{race.violation}, fails...)
+		res.Site, res.Class = "pipe.go:_backgroundRead", "release-before-handover"
+		race.violation = ""
+	}
 	if race != nil && race.violation != "" {
 		fails = append([]string{race.violation}, fails...)
 		res.Site, res.Class = "pipe.go:Do", "sync-and-background"
@@ -761,6 +911,13 @@ func runOnce(c Case) (res obs.Result) {
 		conns = append(conns, pipe.ConnCoq(r2ps, ver, nsync, slots, frames, calls))
 		nslots += len(slots)
 		nframes += len(frames)
+	}
+	if race != nil && race.stolen && !race.void {
+		var evs []string
+		for _, o := range race.order {
+			evs = append(evs, fmt.Sprint(o))
+		}
+		conns = append(conns, "(COrder ["+strings.Join(evs, "; ")+"])")
 	}
 	res.Coq = "(CRun " + obs.List(conns) + ")"
 	res.Nontrivial = len(c.Ops) >= 2 && len(all) >= 2
